@@ -152,6 +152,12 @@ def closed_bound(rp, i):
     return min(rp["initial"] * rp["multiplier"] ** i, rp["maximum"])
 
 
+def slack(i):
+    """real time does pass between attempts (a few ms each on the loopback, more on a busy machine): thresholds and
+    comparisons of the i-th attempt allow for it"""
+    return MARGIN + Fraction(i, 40)
+
+
 def frac(j):
     return None if j is None else Fraction(j[0], j[1])
 
@@ -255,7 +261,8 @@ def gen_calls(r, spec, ctx_n):
 def model_op(spec, plan):
     ck = plan["call_kwargs"]
     op = {"op": "c09.call", "config": spec["config"], "service": plan["svc_full"], "method": plan["method"],
-          "replies": plan["replies"], "jitter": [], "jitter_tail": 1, "retry": "default", "timeout": "default"}
+          "replies": plan["replies"] + ["OK"],       # the loopback server answers OK once its script is used up
+          "jitter": [], "jitter_tail": 1, "retry": "default", "timeout": "default"}
     if ck.get("retry") == "none":
         op["retry"] = None
     elif isinstance(ck.get("retry"), dict):
@@ -276,7 +283,7 @@ def near_threshold(mo, retry_deadline):
         return False
     starts = [frac(a["start"]) for a in mo["attempts"]]
     bounds = [frac(b) for b in mo["bounds"]]
-    return any(abs(st + bounds[i] - retry_deadline) < MARGIN for i, st in enumerate(starts) if i < len(bounds))
+    return any(abs(st + bounds[i] - retry_deadline) < slack(i) for i, st in enumerate(starts) if i < len(bounds))
 
 
 def run_api(ctx, r, spec, label, plans=None):
@@ -482,6 +489,10 @@ def check_calls(ctx, spec, s, asy, jitter, kept, sess):
         ctx.count("call_kind", ("explicit:" + "+".join(sorted(ck))) if ck else "defaults")
         for c in p["replies"]:
             ctx.count("status_code_served", c)
+        ctx.count("model_result", mo["result"])
+        ctx.count("model_attempts", min(len(mo["attempts"]), 10))
+        if any(frac(a["start"]) > 0 and a["timeout"] is not None and a["timeout"] == mo["attempts"][0]["timeout"] for a in mo["attempts"][1:]):
+            ctx.count("model_branch", "remaining<1: whole timeout again")
         srv = [x for x in res["server"] if x["path"].endswith("/" + p["method"])]
         n = len(srv)
         sleeps = res.get("sleeps", [])
@@ -503,21 +514,23 @@ def check_calls(ctx, spec, s, asy, jitter, kept, sess):
             T = None if ck["timeout"] == "none" else num_fraction(ck["timeout"])
         else:
             T = st["timeout"]
-        ok_listed = bool(rp) and "GoogleAPICallError" in rp["classes"]
+        ok_listed = bool(rp) and "GoogleAPICallError" in rp["classes"]      # `OK` among the codes: known finding
         # how many attempts does the statement allow: up to and including the first reply that is OK or not retryable
         k = 0
         for c in p["replies"]:
             k += 1
-            if c == "OK" or rp is None or (api_core_class(c).__name__ not in rp["classes"] and not ok_listed):
+            if c == "OK" or rp is None or api_core_class(c).__name__ not in rp["classes"]:
                 break
         last = p["replies"][k - 1]
         key_prefix = "explicit-" if ck else ""
-        if n != k:
+        if ok_listed and (n != k or raised != (None if last == "OK" else api_core_class(last).__name__)):
+            ctx.fail("ok-code-retries-every-error", f"{tag}: {n} attempts (raised={raised}); `OK` is listed, so the unlisted error {last} is retried", payload)
+        elif n != k:
             if raised == "RetryError" and rp is not None and rp["deadline"] is not None and n < k:
                 # the overall deadline: stopping early is right iff the next back-off would cross it
                 spent = sum(Fraction(x) for x in sleeps)
                 nxt = closed_bound(rp, n - 1)
-                if jitter == 1.0 and not (spent <= rp["deadline"] + MARGIN and spent + nxt >= rp["deadline"] - MARGIN):
+                if jitter == 1.0 and not (spent <= rp["deadline"] + slack(n) and spent + nxt >= rp["deadline"] - slack(n)):
                     ctx.fail(key_prefix + "retry-deadline", f"{tag}: gave up after {n} attempts with {float(spent)} s slept, next back-off ≤ {float(nxt)}, deadline {rp['deadline']}", payload)
             else:
                 ctx.fail(key_prefix + ("single-attempt" if k == 1 else "attempt-count"), f"{tag}: {n} attempts, the statement says {k} (raised={raised})", payload)
@@ -532,7 +545,7 @@ def check_calls(ctx, spec, s, asy, jitter, kept, sess):
                 b = closed_bound(rp, i)
                 if Fraction(w) > b * (1 + Fraction(1, 10 ** 9)) or w < 0:
                     ctx.fail(key_prefix + "wait-bound", f"{tag}: wait {i} = {w} s exceeds min(initial*mult^{i}, maximum) = {float(b)}", payload)
-            if rp["deadline"] is not None and sum(Fraction(x) for x in sleeps) > rp["deadline"] + MARGIN:
+            if rp["deadline"] is not None and sum(Fraction(x) for x in sleeps) > rp["deadline"] + slack(n):
                 ctx.fail(key_prefix + "retry-deadline", f"{tag}: slept {sum(sleeps)} s in total, overall deadline {rp['deadline']}", payload)
         if len(cts) != n:
             ctx.fail("session-failed", f"{tag}: {len(cts)} stub invocations recorded for {n} server calls", payload)
@@ -564,9 +577,9 @@ def check_calls(ctx, spec, s, asy, jitter, kept, sess):
             for i, (a, ct) in enumerate(zip(mo["attempts"], cts)):
                 mt = frac(a["timeout"])
                 st_ = frac(a["start"])
-                if mt is not None and T is not None and abs(T - st_ - 1) < MARGIN:
+                if mt is not None and T is not None and abs(T - st_ - 1) < slack(i):
                     continue        # api-core's `remaining < 1 → whole timeout` threshold: latency decides
-                if (mt is None) != (ct is None) or (mt is not None and abs(float(mt) - ct) > 0.05):
+                if (mt is None) != (ct is None) or (mt is not None and abs(float(mt) - ct) > float(slack(i))):
                     ctx.disagree("T3:c09.call.deadline", f"{tag}: attempt {i}: model deadline {None if mt is None else float(mt)} vs impl {ct}", payload)
 
 
@@ -622,11 +635,11 @@ def run(ctx):
     check_helpers(ctx, ctx.rng("helpers"))
     # corpus first
     for fn, blob in corpus_specs():
-        run_api(ctx, ctx.rng("corpus", fn), blob["spec"], "corpus:" + fn)
+        run_api(ctx, ctx.rng("corpus", fn), blob["spec"], "corpus:" + fn, plans=blob.get("plans"))
     # exhaustive status-code table on the wire
     spec = all_codes_spec()
     run_api(ctx, r, spec, "all-codes", plans=all_codes_plans(spec))
-    for a in range(ctx.n(5, 150)):
+    for a in range(ctx.n(14, 200)):
         run_api(ctx, r, gen_spec(r, a, thorough=not ctx.quick), f"api{a}")
 
 
@@ -640,7 +653,7 @@ def replay(ctx, payload):
     import leanio
     ctx.driver = leanio.Driver()
     if "spec" in payload:
-        run_api(ctx, ctx.rng("replay"), payload["spec"], "replay")
+        run_api(ctx, ctx.rng("replay"), payload["spec"], "replay", plans=payload.get("plans") or ([payload["plan"]] if "plan" in payload else None))
     elif "duration" in payload:
         check_helpers(ctx, ctx.rng("replay"))
     for f in ctx.failures:
